@@ -13,8 +13,9 @@ for d in sorted(glob.glob(OUT + "/C*/[0-9]*")):
     val = json.load(open(v))
     ok = val["applies"] and val["builds"] and val["demo_exit_with_change"] == 1 and \
         val["demo_exit_without_change"] == 0 and val["suite_same_as_clean"]
-    prop = d.split("/")[-2]
-    n = d.split("/")[-1]
+    raw = d.split("/")[-2]
+    prop = raw[:3]                      # round-2 directories are named C01b, ...
+    n = (raw[3:] + d.split("/")[-1])    # C01b/2 -> C01-b2
     dst = os.path.join(DST, "%s-%s" % (prop, n))
     if not ok:
         print("REJECTED", d, val)
